@@ -32,6 +32,10 @@ CHECKS = {
    text='Checkers written and proved sound in Coq (pair_within_ok, pair_between_ok, pws_ok, pws_sym_ok, partitions_ok, pauli_strings_ok, grouping_ok) decide, by vm_compute inside Coq, the property on the complete output of the implementation for every list length in the explored range: pair_within lengths 1..40 (thorough 96), pair_between all length pairs up to 9x9 (14x14), pair_within_simultaneously lengths 4..16 (32), the symmetric/binned variants for num_fermions <= 6 (10) and num_symmetries <= 3 with the xor-of-bins admissibility rule, partition_iterator n <= 12 (20), k <= 4, pauli_string_iterator n <= 6 (8), k <= 3, and group_into_tensor_product_basis_sets for random operators and several seeds (partition of the terms, each term contained in its key, keys name one Pauli per qubit).',
    note='No unbounded theorem about the generators themselves: the guarantee is complete only on the enumerated lengths (the domain is one small integer, so the enumeration is exhaustive there). Trusted: kernel+VM, serialisation of the yielded tuples.',
    tech='verified checkers in Coq evaluated on exhaustive bounded domains'),
+ 'C19': dict(cat='proof', design='3/C19',
+   text='Coq: an executable transcription of the two-pass alias-table construction is proved exact (induced two-stage distribution equals the weights, ranges, donor pointer stays inside the list) for every weight list with n <= 5, t <= 5 by complete enumeration; exact rational specifications (alias_ok, discretize_ok, qr_ok/qi_ok = global minimiser over k in [0,20) with the ceiling value, qr2_ok/qi2_ok = minimiser over the 16x16 grid, power_two_ok, cost_ok = total is step times ceil(pi lam/(2 dE)) with a rational enclosure of pi, one_norm_ok = 1-norm of the proved Jordan-Wigner image) are evaluated inside Coq on the implementation outputs: alias tables exhaustively (small) and randomly up to n = 200 against model and specification, preprocess_lcu_coefficients for several epsilon, lambda_norm / get_one_norm_int(_woconst) on random symmetric tensors, QR for all L <= 600 (4096) and seven M, QI for all L < 2000 (8000), QR2/QI2 random, power_two 0..1024, THC and sparse cost functions (total, monotonicity, step independence).',
+   note='The float expression of the discretisation and the log/ceil float paths are compared with exact arithmetic (inputs near ties are not generated). Unbounded alias-table theorem not formalised (bounded enumeration only). pi is enclosed in [3.14159265358979, 3.14159265358980] (trusted constant).',
+   tech='exhaustive vm_compute theorem + exact rational specifications evaluated in Coq on implementation outputs'),
 }
 def main():
     fixes = subprocess.run("git -C /repo log --format=%H --grep='^fix:'", shell=True, capture_output=True, text=True).stdout.split()
